@@ -17,6 +17,15 @@ def run(ctx):
                        dets=[0, 1][i % 2], fluct=0, scale=[5, 20, 50][i % 3], order=["none", "init_charge"][(i // 2) % 2],
                        inflight=0, maxsteps=30000, secfactor="%.4f" % ((seccap + 0.01) / slots),
                        initcap=[1, 2, 3, 5, 8, 4096][i % 6]))
+    # primaries that overflow the initializer capacity at insertion (error before anything is staged), then a
+    # state reset, then a VALID event on the same stepper -- in both orders (overflow first / valid first), and
+    # with tracks of an earlier event still queued (inflight) when the overflowing insertion comes
+    for i in range(6 if q else 24):
+        big, small = [4, 6, 9][i % 3], [1, 2][i % 2]
+        cs.append(dict(seed=ctx.seed + 4500 + i, slots=[2, 4, 16][i % 3], events=4, emax=30, dets=i % 2, fluct=0,
+                       scale=[5, 20][i % 2], order=["none", "init_charge"][(i // 2) % 2], inflight=[0, 0, 2][i % 3],
+                       maxsteps=30000, secfactor="3.0100", initcap=[3, 5, 8][i % 3],
+                       prims=big if i % 2 == 0 else small, primsalt=small if i % 2 == 0 else big))
     # the known livelock: capacity below one interaction's reservation (F-CAP-1)
     cs.append(dict(seed=ctx.seed + 4999, slots=4, events=1, prims=3, emax=30, dets=0, fluct=0, scale=20, order="none",
                    inflight=0, maxsteps=3000, secfactor=0.26, initcap=4096))
